@@ -157,7 +157,29 @@ def run(ctx, idx):
     if '"{}": "{}"' not in _src_ts0 and "'\"{}\": \"{}\"'" not in _src_ts0:
         # the serialiser no longer writes every tuple value between quotes: what the cleaner may keep depends on what the new
         # writer does with it - not read here
-        _und_j = ["C15.j: the serialiser writes tuple values in a form of its own (not `\"key\": \"value\"` for every value); whether cleaner and writer agree on which values stay numbers is not decided"]
+        class _Proxy(object):
+            def __init__(self, real):
+                self.real, self.calls, self.bad = real, [], False
+
+            def rule(self, *a, **k):
+                self.calls.append(("rule", a, k))
+
+            def floor(self, *a, **k):
+                self.calls.append(("floor", a, k))
+
+            def ob(self, rule_, con_, file_, line_, ok_, why_, **k):
+                self.bad = self.bad or not ok_
+                self.calls.append(("ob", (rule_, con_, file_, line_, ok_, why_), k))
+
+            def replay(self):
+                for nm_, a_, k_ in self.calls:
+                    getattr(self.real, nm_)(*a_, **k_)
+        _px = _Proxy(ctx)
+        _und_j = tuple_text_to_text(_px, idx, "C15.j")
+        if _px.bad:
+            _und_j = ["C15.j: the cleaner keeps some tuple values as they are and the serialiser writes tuple values in a form of its own (not `\"key\": \"value\"` for every value); whether the two agree on which values stay numbers is not decided"]
+        else:
+            _px.replay()
     else:
       _und_j = tuple_text_to_text(ctx, idx, "C15.j", consequence=" - and to_string writes every tuple value as a quoted string, so the same program written out and loaded again holds text there: the reloaded program is not the one that was serialised")
     ctx.assume("str()/repr() of int prints -?d+; of float prints d+.d+, d(.d+)?e[+-]dd+, inf or nan (reference languages fixed by Python)")
